@@ -20,7 +20,8 @@ ASSUMPTIONS = [
     "ties: any maximiser is accepted",
     "early stops where get_last_point raises (known findings of C01) are not judged here",
 ]
-FLOOR = {"recommendations_checked": {"quick": 1500, "thorough": 30000}, "candidates_compared": {"quick": 50000, "thorough": 1000000}}
+FLOOR = {"recommendations_checked": {"quick": 600, "thorough": 4800},
+         "candidates_compared": {"quick": 40000, "thorough": 320000}}
 WALL = {"quick": 1200, "thorough": 4 * 3600}
 SIMPLE = ["DOO", "DOO_delta", "SOO", "SequOOL", "StoSOO", "StroquOOL"]
 
@@ -35,6 +36,12 @@ def gen_cases(rng, tier, count=None):
         else:
             a = SIMPLE[i % len(SIMPLE)]
             c = gen.algo_case(rng, a, tier, fams=FAMS)
+        if c["algo"] == "StoSOO" and rng.random() < 0.4:
+            # a cap one or two levels too tight: once the cells above it are used up pull returns None (C01's
+            # business); the recommendation asked then must still follow the deepest-level rule
+            c["params"]["h_max"] = max(1, c["params"]["h_max"] - int(rng.integers(1, 3)))
+            c["last_after_none"] = True
+            c["T"] = c["n"]
         T = c["T"]
         if T >= 4:
             c["queries"] = sorted(int(x) for x in rng.integers(1, T, size=int(rng.integers(0, 4))))
